@@ -123,7 +123,7 @@ func c05Opt(mem bool) c05GenOpt {
 }
 
 func c05NTKey(s *c05Scn) string {
-	return fmt.Sprintf("%v%v|%v|%v|%s|%s|%s|%s|%d|%d|%v|%v", s.EOFWithData, s.FinAtomic, s.Mem, s.HandleConn, s.Stack, s.Open, s.Close, s.FirstKind, len(s.C2U), len(s.U2C), s.CSteps, s.SSteps)
+	return fmt.Sprintf("%v%v%v|%v|%v|%s|%s|%s|%s|%d|%d|%v|%v", s.EOFWithData, s.FinAtomic, s.NoCW, s.Mem, s.HandleConn, s.Stack, s.Open, s.Close, s.FirstKind, len(s.C2U), len(s.U2C), s.CSteps, s.SSteps)
 }
 
 // c05RunTCP executes a scenario over loopback sockets.
